@@ -116,6 +116,13 @@ def build(rnd, loc, depth, files, counter, prefix):
             lines.append(f"systemLog('mid {me} {k} ' + fn{counter[0] - 1 if False else me}x)") if False else lines.append(f"systemLog('mid {me} {k}')")
         elif x < 0.6:
             lines.append(f"cnt = cnt + 1")
+    if depth > 0 and nkids == 0 and loc is not None and rnd.random() < 0.25:
+        # a file that includes ITSELF a bounded number of times (a counter in a global ends the recursion), or its includer once more:
+        # every one of these include statements fetches and runs the file again
+        own = loc.rsplit('/', 1)[-1]
+        lines.append(f"rc{me} = if(rc{me} == null, 0, rc{me}) + 1")
+        lines.append(f"if rc{me} < {rnd.randint(2, 3)}:\n    include '{own}'\nendif")
+        lines.append(f"systemLog('self {me} ' + rc{me})")
     lines.append(f"function fn{me}(x):\n    return 'f{me}:' + x\nendfunction")
     if rnd.random() < 0.3:
         lines.append(f"systemLog('pre-return {me}')")
